@@ -23,6 +23,7 @@ RULE = (
     "-r <spec> for spec spellings list / kN / kB / n / b / 4dn (any letter case) on a genome of >=1024 bins. "
     "Oracle: model coarsening; expected level set = targets U bases. Non-trivial = >=2 derived levels of which "
     ">=1 has a non-base predecessor. Distinct by sha1 of the canonical case."
+    ' CLI cases also draw one or two --field specs (either order, different aggregates) on a base with a second value column, a finer base through --base-uri (COOL_PATH coarser), -r 4DN on genomes up to 7 Mb, and --legacy (integer-labelled quad-tree levels, recognition, every level against the model).'
 )
 ASSUMPTIONS = [
     "with mutually inconsistent bases a derived level must equal the coarsening of SOME base that divides it (validity predicate)",
